@@ -1,8 +1,12 @@
 /-
   Drive/World.lean — driver suite `world` (C15): run a history of definitions and uses through the
-  `World` model configured from the GENERATED registry table, report per-step observations, the final
-  state of every class, and for every class whether its view after the history equals its view after
-  the sub-history it depends on ("defined alone").
+  `World` model configured from the GENERATED registry table, report per-step observations (incl. the set of
+  classes owning a generated serializer after every step, the shape of `x.serialize()` with nested documents,
+  create_serializer success, instantiability), the final state of every class, and for every class whether its
+  view after the history equals its view after the sub-history it depends on ("defined alone", `slice`).
+  One harness operation is a group of model operations: the instances the executor builds for the arguments
+  (`pre`), then the operation itself.  The optional "decl" block evaluates `constructVal` (Sem/WorldDecl.lean) on
+  concrete probe arguments.
 -/
 import TypedpyModel.Drive.Wire
 import TypedpyModel.Sem.World
